@@ -537,6 +537,29 @@ pub fn gen_deque(rng: &mut Rng, tier: &Tier) -> Vec<Case> {
 /// C05 (generic part): convolution with random asymmetric kernels, normalisation, delay
 pub fn gen_conv(rng: &mut Rng, tier: &Tier) -> Vec<Case> {
     let mut cases = Vec::new();
+    // tap rings filled by hand to every level 0..N and re-injected through `from_guts` (the public state allows
+    // it): the filter tops the ring up with the current sample, then behaves as ever
+    for &n in &[1usize, 2, 3, 4, 5] {
+        for k in 0..=n {
+            for _ in 0..tier.n(2, 20) {
+                let taps: Vec<String> = (0..k).map(|_| rat(rng)).collect();
+                let first = if rng.chance(1, 2) {
+                    let kernel: Vec<String> = (0..n).map(|_| rat(rng)).collect();
+                    format!("inject 1 convolve c={} taps={}", kernel.join(","), csv(&taps))
+                } else {
+                    format!("inject 1 delay N={} taps={}", n, csv(&taps))
+                };
+                let mut c = vec![first, "guts 1 taps".to_string()];
+                for _ in 0..rng.range(1, n as i64 + 3) {
+                    c.push(format!("f 1 {}", rat_nonzero(rng)));
+                    if rng.chance(1, 2) {
+                        c.push("guts 1 taps".into());
+                    }
+                }
+                cases.push(c);
+            }
+        }
+    }
     for &n in WIDTHS.iter() {
         for _ in 0..tier.n(20, 300) {
             let kernel: Vec<String> = (0..n).map(|_| rat(rng)).collect();
@@ -937,6 +960,11 @@ pub fn gen_copy(rng: &mut Rng, tier: &Tier) -> Vec<Case> {
             for _ in 0..rng.range(2, 2 * k.width as i64 + 6) {
                 c.push("clone 1 2".into());
                 c.push("gutsrt 1 3".into());
+                if kind.starts_with("cache") {
+                    // a copy of a warm cache remembers what the original remembers, before it is fed anything
+                    c.push("acc 2 cached".into());
+                    c.push("acc 3 cached".into());
+                }
                 let x = random_input(rng, &k);
                 let y = random_input(rng, &k);
                 c.push(format!("f 2 {}", x));
@@ -1093,12 +1121,13 @@ fn with_coincidences(cases: Vec<Case>, rng: &mut Rng) -> Vec<Case> {
             }
             let mut line = l.clone();
             if l.starts_with("f ") && !ins.is_empty() && rng.chance(2, 5) {
-                let (choice, pick, k) = (rng.below(4), rng.below(ins.len() as u64) as usize, rng.range(1, 4) as usize);
+                let (choice, pick, k) = (rng.below(5), rng.below(ins.len() as u64) as usize, rng.range(1, 4) as usize);
                 // the exact rationals of the harness panic on i128 overflow: such a candidate is simply not used
                 let cand = std::panic::catch_unwind(std::panic::AssertUnwindSafe(|| match choice {
                     0 => outs.last().copied(),
                     1 => Some(ins[pick]),
                     2 if outs.len() >= 2 => Some(outs[outs.len() - 1] + (outs[outs.len() - 1] - outs[outs.len() - 2])),
+                    3 => Some(Q::int(0)), // the other special value: `is_zero` short cuts
                     _ => {
                         let k = k.min(ins.len());
                         Some(ins[ins.len() - k..].iter().fold(Q::int(0), |a, b| a + *b))
